@@ -399,3 +399,79 @@ example :
 end Examples
 
 end GoNeat.C05
+
+/-! ### result `false`: the relations the driver evaluates on a `false` result -/
+namespace GoNeat.C05
+open GoNeat Scalar MutationSpec
+variable {W : Type} [Scalar W]
+
+theorem unchangedRel_refl (weq : W → W → Bool) (hrefl : ∀ a, weq a a = true) (g : Genome W) : unchangedRel weq g g = none := by
+  simp [unchangedRel, traitsEq_refl weq hrefl, genesEq_refl weq hrefl]
+
+/-- add-link returning `false` passes the driver's `unchangedRel` -/
+theorem mutateAddLink_check_false (weq : W → W → Bool) (hrefl : ∀ a, weq a a = true) (g g' : Genome W) (reg reg' : Reg W)
+    (o : MutOpts W) (rs rs' : List Nat) (h : mutateAddLink g reg o rs = .ok ((g', reg', false), rs')) :
+    unchangedRel weq g g' = none := by
+  obtain ⟨rfl, _⟩ := mutateAddLink_false g g' reg reg' o rs rs' h
+  exact unchangedRel_refl weq hrefl _
+
+/-- connect-sensors returning `false` passes the driver's `unchangedRel` -/
+theorem mutateConnectSensors_check_false (weq : W → W → Bool) (hrefl : ∀ a, weq a a = true) (g g' : Genome W) (reg reg' : Reg W)
+    (rs rs' : List Nat) (h : mutateConnectSensors g reg rs = .ok ((g', reg', false), rs')) :
+    unchangedRel weq g g' = none := by
+  obtain ⟨rfl, _⟩ := (mutateConnectSensors_spec g g' reg reg' false rs rs' h).2 rfl
+  exact unchangedRel_refl weq hrefl _
+
+theorem mem_zip_self {α} (l : List α) (x y : α) (h : (x, y) ∈ l.zip l) : x = y := by
+  induction l with
+  | nil => simp at h
+  | cons b bs ih =>
+    simp only [List.zip_cons_cons, List.mem_cons, Prod.mk.injEq] at h
+    rcases h with ⟨rfl, rfl⟩ | h
+    · rfl
+    · exact ih h
+
+theorem filter_zip_self (weq : W → W → Bool) (hrefl : ∀ a, weq a a = true) (l : List (Gene W)) :
+    (List.zip l l).filter (fun (x, y) => !geneEq weq x y) = [] := by
+  rw [List.filter_eq_nil_iff]
+  rintro ⟨x, y⟩ hp
+  have := mem_zip_self l x y hp
+  subst this
+  simp [geneEq_refl weq hrefl]
+
+theorem zip_modify_diff (weq : W → W → Bool) (hrefl : ∀ a, weq a a = true) (l : List (Gene W)) (k : Nat) (old : Gene W)
+    (hk : l[k]? = some old) (hen : old.en = true) :
+    ((List.zip l (l.modify k (fun x => { x with en := false }))).filter (fun (x, y) => !geneEq weq x y)) =
+      [(old, { old with en := false })] := by
+  induction l generalizing k with
+  | nil => simp at hk
+  | cons a as ih =>
+    cases k with
+    | zero =>
+      simp only [List.getElem?_cons_zero, Option.some.injEq] at hk
+      subst hk
+      have hne : geneEq weq a { a with en := false } = false := by simp [geneEq, hen]
+      simp [List.modify, hne, filter_zip_self weq hrefl as]
+    | succ k =>
+      simp only [List.getElem?_cons_succ] at hk
+      simp only [List.modify_succ_cons, List.zip_cons_cons, List.filter_cons, geneEq_refl weq hrefl, Bool.not_true,
+        Bool.false_eq_true, ↓reduceIte]
+      exact ih k hk
+
+/-- add-node returning `false` passes the driver's `addNodeFalseRel` -/
+theorem mutateAddNode_check_false (weq : W → W → Bool) (hrefl : ∀ a, weq a a = true) (g g' : Genome W) (reg reg' : Reg W)
+    (o : MutOpts W) (rs rs' : List Nat) (h : mutateAddNode g reg o rs = .ok ((g', reg', false), rs')) :
+    addNodeFalseRel weq g g' = none := by
+  obtain ⟨_, _, hn, ht, _, hg⟩ := mutateAddNode_false g g' reg reg' o rs rs' h
+  rcases hg with rfl | ⟨k, old, _, hk, hen, hgenes, _⟩
+  · unfold addNodeFalseRel
+    simp only [traitsEq_refl weq hrefl, Bool.not_true, Bool.false_eq_true, ↓reduceIte, bne_self_eq_false,
+      filter_zip_self weq hrefl g'.genes, List.isEmpty_nil]
+  · unfold addNodeFalseRel
+    have hdiff := zip_modify_diff weq hrefl g.genes k old hk hen
+    rw [ht, hn, hgenes]
+    simp only [traitsEq_refl weq hrefl, Bool.not_true, Bool.false_eq_true, ↓reduceIte, bne_self_eq_false, setEnabledAt,
+      List.length_modify, hdiff]
+    simp [hen, geneEq_refl weq hrefl]
+
+end GoNeat.C05
